@@ -54,6 +54,23 @@ def _cls(items):
     return r
 
 
+LENIENT = [False]  # when set, alternatives of a BRANCH that are not regular are dropped (sound
+# only for the right-hand side of an inclusion query: it makes that language smaller)
+
+
+def _alts(av):
+    out = []
+    for a in av[1]:
+        try:
+            out.append(_tr(a))
+        except NotRegular:
+            if not LENIENT[0]:
+                raise
+    if not out:
+        raise NotRegular("no regular alternative")
+    return out
+
+
 def _tr(sub):
     out = []
     for op, av in sub:
@@ -66,7 +83,8 @@ def _tr(sub):
         elif op is IN:
             out.append(_cls(av))
         elif op is BRANCH:
-            out.append(z3.Union(*[_tr(a) for a in av[1]]) if len(av[1]) > 1 else _tr(av[1][0]))
+            alts = _alts(av)
+            out.append(z3.Union(*alts) if len(alts) > 1 else alts[0])
         elif op is SUBPATTERN:
             out.append(_tr(av[3]))
         elif op in (MAX_REPEAT, MIN_REPEAT):
@@ -95,7 +113,13 @@ def included(a, b, extra=None, timeout_ms=60000):
     s = z3.String("s")
     sol = z3.Solver()
     sol.set("timeout", timeout_ms)
-    sol.add(z3.InRe(s, rx(a)), z3.Not(z3.InRe(s, rx(b))))
+    ra = rx(a)
+    LENIENT[0] = True
+    try:
+        rb = rx(b)
+    finally:
+        LENIENT[0] = False
+    sol.add(z3.InRe(s, ra), z3.Not(z3.InRe(s, rb)))
     if extra is not None:
         sol.add(extra(s))
     r = sol.check()
